@@ -458,6 +458,9 @@ def run(ctx):
     import export_props_quic_thms, export_props_thms, file_corr     # whole-program form (Props/ExportProps) about TLX.Export.framesFrom, tied file to file
     import translate                 # decision-logic functions re-translated from the source and proved equal to the model
     _tm, _tt = translate.wire(ctx, "C10")
+    import oncode_thms               # the property theorems stated on the regenerated definitions themselves (Props/OnCode)
+    _om, _ot = oncode_thms.wire("C10")
+    _tm, _tt = _tm + _om, _tt + _ot
     ctx.prove(["TLX.Props.C10"] + export_props_thms.MODULES + export_props_quic_thms.MODULES + _tm)
     ctx.require_theorems(_tt)
     ctx.require_theorems(THEOREMS + export_props_thms.THEOREMS_C10 + export_props_quic_thms.THEOREMS_C10)
